@@ -1,0 +1,41 @@
+//! Verification seams (compiled only with `--cfg rre_verif`). No effect on normal builds.
+use std::cell::{Cell, RefCell};
+
+thread_local! {
+    static CLOCK_MS: Cell<Option<u64>> = const { Cell::new(None) };
+    static CRASH_PLAN: RefCell<Option<(String, usize)>> = const { RefCell::new(None) };
+    static CRASH_LOG: RefCell<Vec<String>> = const { RefCell::new(Vec::new()) };
+}
+
+/// Override the wall clock (milliseconds since epoch) seen by hooked code on this thread.
+pub fn set_clock_ms(t: Option<u64>) {
+    CLOCK_MS.with(|c| c.set(t));
+}
+/// Current override, if any.
+pub fn clock_ms() -> Option<u64> {
+    CLOCK_MS.with(|c| c.get())
+}
+/// Arm a crash: panic when `label` is reached (for a write label: after `offset` bytes).
+pub fn set_crash_plan(p: Option<(String, usize)>) {
+    CRASH_PLAN.with(|c| *c.borrow_mut() = p);
+}
+/// Labels passed so far on this thread (lets the harness enumerate the crash points that exist).
+pub fn take_crash_log() -> Vec<String> {
+    CRASH_LOG.with(|c| std::mem::take(&mut *c.borrow_mut()))
+}
+/// Called at each labelled point of a hooked write path.
+pub fn crash_point(label: &str) {
+    CRASH_LOG.with(|c| c.borrow_mut().push(label.to_string()));
+    let hit = CRASH_PLAN.with(|c| matches!(&*c.borrow(), Some((l, _)) if l == label));
+    if hit {
+        panic!("rre_verif injected crash at {}", label);
+    }
+}
+/// For a write label: how many bytes may be written before the injected crash (None = all).
+pub fn crash_write_limit(label: &str, len: usize) -> Option<usize> {
+    CRASH_LOG.with(|c| c.borrow_mut().push(format!("{}:{}", label, len)));
+    CRASH_PLAN.with(|c| match &*c.borrow() {
+        Some((l, n)) if l == label => Some(*n),
+        _ => None,
+    })
+}
